@@ -581,6 +581,66 @@ func cancelledWrite() {
 	vrt.Observe("werr=%v events=%v", werr != nil, events)
 }
 
+// propertyCycles: the same proxy follows the level property, sees two accepted
+// writes (one by a client, one by the service), stops following, misses one
+// write - four times in a row. Each life receives exactly its own two change
+// events, once each.
+func propertyCycles() {
+	w := fx.Start(bus.Yes{})
+	cs, cw := w.MustConnect(), w.MustConnect()
+	p, pw := cs.Probe(1), cw.Probe(1)
+	vrt.Explore()
+	n := int32(100)
+	write := func(service bool) int32 {
+		n++
+		var err error
+		if service {
+			err = w.Root.Helper.UpdateLevel(n)
+		} else {
+			err = pw.SetLevel(n)
+		}
+		if err != nil {
+			vrt.Failf("write-refused/cycles", "write of %d failed: %v", n, err)
+		}
+		vrt.Quiesce()
+		return n
+	}
+	for life := 1; life <= 4; life++ {
+		cancel, ch, err := p.SubscribeLevel()
+		if err != nil {
+			vrt.Failf("subscribe-failed/cycles", "subscription number %d to the level property failed: %v", life, err)
+			break
+		}
+		var got []int32
+		closed := false
+		vrt.GoNamed(fmt.Sprintf("drain-life%d", life), func() {
+			for v := range ch {
+				got = append(got, v)
+			}
+			closed = true
+		})
+		vrt.Quiesce()
+		a, b := write(false), write(true)
+		cancel()
+		vrt.Quiesce()
+		write(false)
+		if fmt.Sprint(got) != fmt.Sprint([]int32{a, b}) {
+			clause := "events-differ-from-accepted-writes"
+			if len(got) > 2 {
+				clause = "event-duplicated"
+			}
+			vrt.Failf(fmt.Sprintf("cycles/%s/life%d", clause, life), "subscription number %d of the same proxy to the level property received %v; the writes accepted while it was open are [%d %d]", life, got, a, b)
+			break
+		}
+		if !closed {
+			vrt.Failf(fmt.Sprintf("cycles/channel-not-closed/life%d", life), "the channel of subscription number %d is still open after its cancellation", life)
+			break
+		}
+	}
+	fx.Settle()
+	vrt.Observe("n=%d", n)
+}
+
 // burst: a subscriber that does not read while several clients write a burst
 // of values (well within the documented capacity of a subscription), then
 // reads: it receives every accepted write exactly once.
@@ -708,6 +768,8 @@ func duplicateLink() {
 }
 
 func init() {
+	reg.Register(&reg.Scenario{Property: "C14", Name: "four-property-subscription-cycles", Body: propertyCycles, Quick: 0, Thorough: 1,
+		Doc: "the same proxy follows the level property, sees a client write and a service-side update, cancels, misses a write - four lives in a row: each life receives exactly its own two change events once"})
 	reg.Register(&reg.Scenario{Property: "C14", Name: "burst-before-reading", Body: burst, Quick: 0, Thorough: 1,
 		Doc: "three clients write ten values each while the subscriber does not read (30 pending events, the subscription queue holds 100); then it reads: every accepted write exactly once, each writer's in order"})
 	reg.Register(&reg.Scenario{Property: "C14", Name: "link-id-already-in-use", Body: duplicateLink, Quick: 0, Thorough: 1,
